@@ -6,6 +6,7 @@
 
 mod inferops;
 mod inplace;
+mod logdb;
 mod lowerq;
 mod solver;
 mod termops;
@@ -47,8 +48,10 @@ fn main() {
             "solve" => solver::run_job(&line),
             "inplace" => inplace::run_job(&line),
             "lower" => lowerq::run_job(&line),
+            "parse" => lowerq::run_parse_job(&line),
             "terms" => termops::run_job(&line),
             "infer" => inferops::run_job(&line),
+            "logdb" => logdb::run_job(&line),
             _ => {
                 eprintln!("unknown mode {}", mode);
                 std::process::exit(2);
